@@ -97,6 +97,26 @@ def scenario_defer_forever():
     return spec, [], {"njob": 2, "defer_cap": 3}
 
 
+LATE_REQUEST_MECH = ("a step that dies right after sending a request which makes its own missing input "
+                     "available is run again without bound: the request is applied after the step ended, "
+                     "re-pends it, and the defer cap only fails it until the next late request")
+
+
+def scenario_late_request_after_death():
+    """A step amends a file nobody declares (deferred), sends static() for that file on a
+    connection it closes at once, and dies.  The request is handled after the step ended."""
+    prog = [{"a": "amend", "inp": ["src/late.txt"]},
+            {"a": "drop", "name": "declare_static", "args": [[], ["src/late.txt"], []], "when": "sent", "die": True}]
+    prog2 = [{"a": "raw", "name": "amend_step", "args": [["src/late.txt"], [], [], []]},
+             {"a": "drop", "name": "declare_static", "args": [[], ["src/late.txt"], []], "when": "sent", "die": True}]
+    del prog
+    import json as _json
+    spec = {"sources": {"src/a.txt": "a\n", "src/late.txt": "late\n"}, "env": {}, "steps": {},
+            "plans": {".": [["static", ["src/a.txt"]],
+                            ["raw", {"a": "step", "cmd": "do " + _json.dumps(prog2), "inp": ["src/a.txt"]}]]}}
+    return spec, [], {"njob": 2, "defer_cap": 2, "keep_going": True, "drop_cutoff": 150}
+
+
 def scenario_missing_amend():
     """A step amends an input that nothing declares: deferred, and parked until the cap."""
     spec = {
@@ -143,6 +163,7 @@ SCENARIOS = {
     "defer_forever": scenario_defer_forever,
     "missing_amend": scenario_missing_amend,
     "targets": scenario_targets,
+    "late_request_after_death": scenario_late_request_after_death,
 }
 
 
@@ -217,8 +238,10 @@ def run_case(case):
         nsteps = max(1, len({e["step"] for e in build.events if e["type"] == "cmd_start"}))
         cap = getattr(mon, "defer_cap", 100)
         if mon.counters.get("dispatches", 0) > (nsteps + 5) * (cap + 2) * 3:
-            vio("unbounded number of dispatches in one build phase",
-                f"{what}: {mon.counters.get('dispatches')} dispatches for {nsteps} steps, cap {cap}", witness)
+            mech = "unbounded number of dispatches in one build phase"
+            if any(e["type"] == "drop" for e in build.events):
+                mech = LATE_REQUEST_MECH
+            vio(mech, f"{what}: {mon.counters.get('dispatches')} dispatches for {nsteps} steps, cap {cap}", witness)
         if build.error is not None and build.error[0] == "watchdog":
             vio("build phase does not terminate", f"{what}: {build.error}", witness)
 
@@ -254,6 +277,8 @@ def run_case(case):
                     files = gen.render(cur, previous=files)
                 cfg = cfgs[k]
                 mode = rng.choice(["free", "jitter", "serial"])
+                if case.get("scenario") == "late_request_after_death":
+                    mode = "free"    # the request has to be handled before the job is retired
                 ctl = H.Controller(mode, rng.randrange(1 << 30))
                 if mode == "serial":
                     counters["serial_builds"] += 1
@@ -265,6 +290,19 @@ def run_case(case):
                 b = H.run_build(cfg, ctl=ctl, monitors=[mon], env=dict(cur.get("env", {})), timeout=90)
                 collect(mon, b, f"{case['id']}/{sub} build {k} ({mode})")
                 counters["evaluations"] += 1
+                if case.get("scenario") == "late_request_after_death":
+                    # The window (request handled after the step's completion was committed and
+                    # before its job is retired) is narrower under the commit monitor: the same
+                    # build is repeated without it and judged on the number of command starts.
+                    for rep in range(6):
+                        shutil.rmtree(".stepup", ignore_errors=True)
+                        b2 = H.run_build(cfg, ctl=H.Controller("free", rep), env={}, timeout=90)
+                        starts = sum(1 for e in b2.events if e["type"] == "cmd_start")
+                        counters["late_request_runs"] = counters.get("late_request_runs", 0) + 1
+                        counters["late_request_max_starts"] = max(counters.get("late_request_max_starts", 0), starts)
+                        if starts > (2 + 5) * (cfg["defer_cap"] + 2) * 3:
+                            vio(LATE_REQUEST_MECH, f"{case['id']} repetition {rep}: {starts} command starts for "
+                                f"2 steps with defer cap {cfg['defer_cap']}", witness)
         finally:
             os.chdir(cwd)
             shutil.rmtree(sub, ignore_errors=True)
